@@ -1,0 +1,440 @@
+//! Verification hooks.  Compiled only with `--cfg rustfmt_verif`; every entry
+//! point is a no-op unless the corresponding environment variable selects it.
+//!
+//! * `RUSTFMT_VERIF_TRACE=<file>`: append one JSON object per event.
+//! * `RUSTFMT_VERIF_CRASH=<point>[@n]`: abort the process at the n-th visit of
+//!   the named crash point.
+//! * `RUSTFMT_VERIF_FAULT=<point>[@n]`: make the named operation fail with an
+//!   I/O error at its n-th visit.
+//! * `RUSTFMT_VERIF_PANIC=<point>[@n]`: panic at the n-th visit of the point.
+#![allow(missing_docs, unreachable_pub, dead_code)]
+
+use std::cmp::Ordering;
+use std::fs::{File, OpenOptions};
+use std::io::{self, Write};
+use std::path::PathBuf;
+use std::sync::atomic::{AtomicU64, Ordering as AtomicOrdering};
+use std::sync::{Mutex, OnceLock};
+
+use serde_json::{Value, json};
+
+use crate::comment::CharClasses;
+use crate::config::{Config, FileName};
+use crate::emitter::FormattedFile;
+use crate::rustfmt_diff::{DiffLine, ModifiedLines};
+use crate::{FormatReport, NewlineStyle};
+
+static SEQ: AtomicU64 = AtomicU64::new(0);
+
+fn sink() -> Option<&'static Mutex<File>> {
+    static SINK: OnceLock<Option<Mutex<File>>> = OnceLock::new();
+    SINK.get_or_init(|| {
+        let path = std::env::var_os("RUSTFMT_VERIF_TRACE")?;
+        OpenOptions::new()
+            .create(true)
+            .append(true)
+            .open(path)
+            .ok()
+            .map(Mutex::new)
+    })
+    .as_ref()
+}
+
+thread_local! {
+    static DEPTH: std::cell::Cell<u32> = const { std::cell::Cell::new(0) };
+}
+
+/// Nesting depth of `format_input_inner` on this thread (1 = a top-level
+/// input, deeper = a snippet session started by the formatter itself).
+pub struct DepthGuard;
+
+impl DepthGuard {
+    pub fn enter() -> DepthGuard {
+        DEPTH.with(|d| d.set(d.get() + 1));
+        DepthGuard
+    }
+}
+
+impl Drop for DepthGuard {
+    fn drop(&mut self) {
+        DEPTH.with(|d| d.set(d.get().saturating_sub(1)));
+    }
+}
+
+/// Whether tracing is switched on for this process.
+pub fn enabled() -> bool {
+    sink().is_some()
+}
+
+/// Append one event to the trace.  `ev` must be a JSON object; `seq`, `pid`
+/// and `tid` are added here, under the lock that serialises the writes.
+pub fn trace(mut ev: Value) {
+    let Some(sink) = sink() else { return };
+    let mut file = sink.lock().unwrap_or_else(|e| e.into_inner());
+    let seq = SEQ.fetch_add(1, AtomicOrdering::SeqCst);
+    if let Some(obj) = ev.as_object_mut() {
+        obj.insert("depth".to_owned(), json!(DEPTH.with(|d| d.get())));
+        obj.insert("seq".to_owned(), json!(seq));
+        obj.insert("pid".to_owned(), json!(std::process::id()));
+        obj.insert(
+            "tid".to_owned(),
+            json!(format!("{:?}", std::thread::current().id())),
+        );
+    }
+    let mut line = ev.to_string();
+    line.push('\n');
+    let _ = file.write_all(line.as_bytes());
+}
+
+/// Lazily built event: the closure only runs when tracing is enabled.
+pub fn trace_with<F: FnOnce() -> Value>(f: F) {
+    if enabled() {
+        trace(f());
+    }
+}
+
+fn selected(var: &str, name: &str, counter: &Mutex<Vec<(String, u64)>>) -> bool {
+    let Ok(spec) = std::env::var(var) else {
+        return false;
+    };
+    let (point, nth) = match spec.rsplit_once('@') {
+        Some((p, n)) => (p.to_owned(), n.parse::<u64>().unwrap_or(1)),
+        None => (spec.clone(), 1),
+    };
+    if point != name {
+        return false;
+    }
+    let mut counts = counter.lock().unwrap_or_else(|e| e.into_inner());
+    let entry = match counts.iter_mut().find(|(n, _)| n == name) {
+        Some(e) => e,
+        None => {
+            counts.push((name.to_owned(), 0));
+            counts.last_mut().unwrap()
+        }
+    };
+    entry.1 += 1;
+    entry.1 == nth
+}
+
+/// Named crash point: aborts the process (no unwinding, nothing flushed).
+pub fn crash_point(name: &str) {
+    static COUNTS: Mutex<Vec<(String, u64)>> = Mutex::new(Vec::new());
+    if selected("RUSTFMT_VERIF_CRASH", name, &COUNTS) {
+        trace(json!({"ev": "Crash", "point": name}));
+        std::process::abort();
+    }
+}
+
+/// Named fault point: returns an I/O error when selected.
+pub fn fault(name: &str) -> io::Result<()> {
+    static COUNTS: Mutex<Vec<(String, u64)>> = Mutex::new(Vec::new());
+    if selected("RUSTFMT_VERIF_FAULT", name, &COUNTS) {
+        trace(json!({"ev": "Fault", "point": name}));
+        return Err(io::Error::new(
+            io::ErrorKind::Other,
+            format!("injected fault at {name}"),
+        ));
+    }
+    Ok(())
+}
+
+/// Named panic point: panics when selected.
+pub fn panic_point(name: &str) {
+    static COUNTS: Mutex<Vec<(String, u64)>> = Mutex::new(Vec::new());
+    if selected("RUSTFMT_VERIF_PANIC", name, &COUNTS) {
+        trace(json!({"ev": "InjectedPanic", "point": name}));
+        panic!("injected panic at {name}");
+    }
+}
+
+/// 64-bit FNV-1a, printed as a decimal string (TLC integers are 32-bit).
+pub fn fnv(bytes: &[u8]) -> String {
+    let mut h: u64 = 0xcbf2_9ce4_8422_2325;
+    for b in bytes {
+        h ^= u64::from(*b);
+        h = h.wrapping_mul(0x0000_0100_0000_01b3);
+    }
+    h.to_string()
+}
+
+// ---------------------------------------------------------------------------
+// Exports: thin wrappers around crate-private functions.
+// ---------------------------------------------------------------------------
+
+/// One hunk of `make_diff`: (line_number, line_number_orig, [(tag, text)]) with
+/// tag `C`ontext, `E`xpected (formatted side), `R`esulting (original side).
+pub type Hunk = (u32, u32, Vec<(char, String)>);
+
+pub fn make_diff(expected: &str, actual: &str, context_size: usize) -> Vec<Hunk> {
+    crate::rustfmt_diff::make_diff(expected, actual, context_size)
+        .into_iter()
+        .map(|m| {
+            (
+                m.line_number,
+                m.line_number_orig,
+                m.lines
+                    .into_iter()
+                    .map(|l| match l {
+                        DiffLine::Context(s) => ('C', s),
+                        DiffLine::Expected(s) => ('E', s),
+                        DiffLine::Resulting(s) => ('R', s),
+                    })
+                    .collect(),
+            )
+        })
+        .collect()
+}
+
+pub fn modified_lines(original: &str, formatted: &str) -> ModifiedLines {
+    ModifiedLines::from(crate::rustfmt_diff::make_diff(original, formatted, 0))
+}
+
+/// Run the emitter selected by `config` (emit mode, backup, `-l`) on one
+/// `(name, original, formatted)` triple, header and footer included.
+/// Returns the bytes written to the writer and the emitter's `has_diff`.
+pub fn emit_pair(
+    config: &Config,
+    name: Option<PathBuf>,
+    original: &str,
+    formatted: &str,
+) -> io::Result<(Vec<u8>, bool)> {
+    let mut out: Vec<u8> = Vec::new();
+    let mut emitter = crate::create_emitter(config);
+    let filename = match name {
+        Some(p) => FileName::Real(p),
+        None => FileName::Stdin,
+    };
+    emitter.emit_header(&mut out)?;
+    let res = emitter.emit_formatted_file(
+        &mut out,
+        FormattedFile {
+            filename: &filename,
+            original_text: original,
+            formatted_text: formatted,
+        },
+    )?;
+    emitter.emit_footer(&mut out)?;
+    Ok((out, res.has_diff))
+}
+
+pub fn version_sort(a: &str, b: &str) -> Ordering {
+    crate::sort::version_sort(a, b)
+}
+
+/// `CharClasses` classification of every character of `s`.
+pub fn char_kinds(s: &str) -> Vec<(char, String)> {
+    CharClasses::new(s.chars())
+        .map(|(k, c)| (c, format!("{k:?}")))
+        .collect()
+}
+
+/// The line scanner on an arbitrary text: returns the (possibly truncated)
+/// text and the `(line, kind)` entries it reported.
+pub fn format_lines(
+    text: &str,
+    name: &FileName,
+    skipped: &[(usize, usize)],
+    config: &Config,
+) -> (String, Vec<(usize, String)>) {
+    let report = FormatReport::new();
+    let mut buf = text.to_owned();
+    crate::formatting::verif_format_lines(&mut buf, name, skipped, config, &report);
+    let entries = report_entries(&report)
+        .into_iter()
+        .map(|(_, l, k)| (l, k))
+        .collect();
+    (buf, entries)
+}
+
+pub fn apply_newline_style(style: NewlineStyle, formatted: &str, raw: &str) -> String {
+    let mut buf = formatted.to_owned();
+    crate::formatting::verif_apply_newline_style(style, &mut buf, raw);
+    buf
+}
+
+fn kind_name(kind: &crate::ErrorKind) -> String {
+    match kind {
+        crate::ErrorKind::LineOverflow(..) => "LineOverflow".to_owned(),
+        crate::ErrorKind::TrailingWhitespace => "TrailingWhitespace".to_owned(),
+        crate::ErrorKind::DeprecatedAttr => "DeprecatedAttr".to_owned(),
+        crate::ErrorKind::BadAttr => "BadAttr".to_owned(),
+        crate::ErrorKind::LostComment => "LostComment".to_owned(),
+        other => format!("{other:?}"),
+    }
+}
+
+/// The `(file, line, kind)` entries of a report, sorted.
+pub fn report_entries(report: &FormatReport) -> Vec<(String, usize, String)> {
+    let mut v: Vec<(String, usize, String)> = report
+        .internal
+        .borrow()
+        .0
+        .iter()
+        .flat_map(|(f, errs)| {
+            errs.iter()
+                .map(move |e| (f.to_string(), e.line, kind_name(&e.kind)))
+        })
+        .collect();
+    v.sort();
+    v
+}
+
+pub fn non_formatted_ranges(report: &FormatReport) -> Vec<(usize, usize)> {
+    report.non_formatted_ranges.clone()
+}
+
+/// The seven sticky flags of a report, in declaration order.
+pub fn report_flags(report: &FormatReport) -> [bool; 7] {
+    let i = report.internal.borrow();
+    flags_of(&i.1)
+}
+
+pub(crate) fn flags_of(e: &crate::formatting::ReportedErrors) -> [bool; 7] {
+    [
+        e.has_operational_errors,
+        e.has_parsing_errors,
+        e.has_formatting_errors,
+        e.has_macro_format_failure,
+        e.has_check_errors,
+        e.has_diff,
+        e.has_unformatted_code_errors,
+    ]
+}
+
+pub(crate) fn flags_json(e: &crate::formatting::ReportedErrors) -> Value {
+    let f = flags_of(e);
+    json!({
+        "operational": f[0], "parsing": f[1], "formatting": f[2], "macro": f[3],
+        "check": f[4], "diff": f[5], "unformatted": f[6],
+    })
+}
+
+/// `FileLines` queries on an explicit line range of `name`:
+/// (contains_range, intersects, [contains_line(l) for l in lo..=hi]).
+pub fn file_lines_query(
+    fl: &crate::config::FileLines,
+    name: &FileName,
+    lo: usize,
+    hi: usize,
+) -> (bool, bool, Vec<bool>) {
+    fl.verif_query(name, lo, hi)
+}
+
+pub fn file_lines_ranges(fl: &crate::config::FileLines, name: &FileName) -> Vec<(usize, usize)> {
+    fl.verif_ranges(name)
+}
+
+/// Records a caught panic; always returns `false` so that it can stand in a
+/// match guard without changing which arm is taken.
+pub fn note_panic_caught(zone: &str) -> bool {
+    trace_with(|| json!({"ev": "PanicCaught", "zone": zone}));
+    false
+}
+
+/// A file-system operation has completed: log it, then offer a crash point of
+/// the same name (a crash *after* the operation).
+pub fn fs_done(point: &str, to: &std::path::Path, from: Option<&std::path::Path>) {
+    trace_with(|| {
+        json!({
+            "ev": "FsOp",
+            "point": point,
+            "to": to.display().to_string(),
+            "from": from.map(|p| p.display().to_string()),
+        })
+    });
+    crash_point(point);
+}
+
+// ---------------------------------------------------------------------------
+// Event helpers used at the hook sites (one short statement per site).
+// ---------------------------------------------------------------------------
+
+pub fn ev(name: &str) {
+    trace_with(|| json!({"ev": name}));
+}
+
+pub fn ev_ok(name: &str, ok: bool) {
+    trace_with(|| json!({"ev": name, "ok": ok}));
+}
+
+pub fn ev_path(name: &str, path: &FileName, why: &str) {
+    trace_with(|| json!({"ev": name, "path": path.to_string(), "why": why}));
+}
+
+pub(crate) fn ev_input_start(
+    name: &FileName,
+    config: &Config,
+    errors: &crate::formatting::ReportedErrors,
+) {
+    trace_with(|| {
+        json!({
+            "ev": "InputStart",
+            "input": match name { FileName::Real(_) => "file", FileName::Stdin => "stdin" },
+            "path": name.to_string(),
+            "mode": format!("{:?}", config.emit_mode()),
+            "backup": config.make_backup(),
+            "flags": flags_json(errors),
+        })
+    });
+}
+
+pub(crate) fn ev_input_end(
+    report: &crate::formatting::ReportedErrors,
+    session: &crate::formatting::ReportedErrors,
+) {
+    trace_with(|| {
+        json!({
+            "ev": "InputEnd",
+            "report": flags_json(report),
+            "flags": flags_json(session),
+        })
+    });
+}
+
+pub(crate) fn ev_resolved<'a>(files: impl Iterator<Item = &'a FileName>) {
+    trace_with(|| {
+        json!({
+            "ev": "Resolved",
+            "files": files.map(|k| k.to_string()).collect::<Vec<_>>(),
+        })
+    });
+}
+
+pub(crate) fn ev_emit(name: &FileName, original: &str, formatted: &str) {
+    trace_with(|| {
+        json!({
+            "ev": "Emit",
+            "path": name.to_string(),
+            "differs": original != formatted,
+            "orig_h": fnv(original.as_bytes()),
+            "fmt_h": fnv(formatted.as_bytes()),
+        })
+    });
+}
+
+pub fn ev_exit(code: i32) {
+    trace_with(|| json!({"ev": "Exit", "code": code}));
+}
+
+pub fn ev_bad_path(path: &std::path::Path) {
+    trace_with(|| json!({"ev": "BadPath", "path": path.display().to_string()}));
+}
+
+pub fn ev_invocation(check: bool, files: &[PathBuf]) {
+    trace_with(|| {
+        json!({
+            "ev": "Invocation",
+            "check": check,
+            "files": files.iter().map(|f| f.display().to_string()).collect::<Vec<_>>(),
+        })
+    });
+}
+
+pub fn ev_reported<T: Write>(session: &crate::Session<'_, T>) {
+    trace_with(|| {
+        json!({
+            "ev": "Reported",
+            "flags": flags_json(&session.errors),
+        })
+    });
+}
